@@ -72,11 +72,31 @@ class CommandCtx:
                         progressed = True
                 if not progressed:
                     return None
-        # cross-option constraint: add one or two optional options
+        # cross-option constraint: other values for the required options, then one or two optional options
         optional = [o.name for o in self.opts if o.name not in base]
 
         def ok(b: dict[str, Any]) -> bool:
             return L.reference(self.cfg_type, self._kwargs(b), None)[0] == "ok"
+
+        def good(n: str) -> list[Any]:
+            return [r for r in self.cands[n].cli if r not in (L.BAD, [L.BAD], L.CONST)]
+
+        for n in list(base):
+            for r in good(n):
+                b = dict(base)
+                b[n] = r
+                if ok(b):
+                    return b
+        req = list(base)
+        for i, n in enumerate(req):
+            for m in req[i + 1:]:
+                for r in good(n):
+                    for q in good(m):
+                        b = dict(base)
+                        b[n] = r
+                        b[m] = q
+                        if ok(b):
+                            return b
 
         for n in optional:
             for r in self.cands[n].cli[:3]:
@@ -283,9 +303,12 @@ def reload_record(cfg_type: type, cfg: Any, names: list[str], how: str, loader: 
         note = f"{type(e).__name__}: {e}"[:300]
     a, b = _ids(orig, re_)
     diff = [n for n, x, y in zip(names, a, b) if x != y] if not err else []
+    try:
+        dump = cfg.model_dump_json()[:1500]
+    except Exception as e:  # noqa: BLE001
+        dump = f"(model_dump_json failed: {type(e).__name__})"
     return {"rec": {"kind": "reload", "orig": a, "re": b, "err": err},
-            "detail": {"how": how, "config_type": cfg_type.__name__, "differs": diff, "error": note,
-                       "dump": cfg.model_dump_json()[:1500]}}
+            "detail": {"how": how, "config_type": cfg_type.__name__, "differs": diff, "error": note, "dump": dump}}
 
 
 def load_direct(cmd: type) -> Any:
@@ -412,6 +435,8 @@ def run_command(job: dict[str, Any]) -> dict[str, Any]:
             pats = job["patterns"].get(fk)
             if pats is None:
                 raise Machinery(f"option class {fk} of {path} {o.name} is not enumerated by MC_ConfigPrecedence")
+            if job.get("full") is not None and o.name not in job["full"]:
+                pats = [q for q in pats if all(v != 0 for v in q.values())]
             for pat in pats:
                 for variant in job["variants"]:
                     if variant > 0 and all(v != 1 for v in pat.values()) and not any(v == 0 for v in pat.values()):
